@@ -108,6 +108,10 @@ def plan(tier, seed):
                 spec.pop("subcycles", None)
                 lo = max(i for i, m in enumerate(spec["moves"]) if m == "wf")
                 spec["cap"] = rng.randint(lo, spec["n_intf"] - 1) + 0.5
+                spec.pop("shift", None)
+                spec.pop("lm1", None)
+                if rng.random() < 0.3:
+                    spec["shift"] = -spec["cap"]   # interface_cap == 0.0
     return jobs + rjobs
 
 
